@@ -88,8 +88,12 @@ def impl_order(sc, subset):
     return sorted(subset, key=lambda j: (RANK[sc["biases"][j]["kind"]], j))
 
 
-def config_text(sc, subset, scripted=False):
+def config_text(sc, subset, scripted=False, reverse=False):
     L = ["scriptedColvarForces on"] if scripted else []
+    if scripted and sc.get("after_biases"):
+        L.append("scriptingAfterBiases on")
+    if reverse:
+        subset = list(reversed(subset))
     for i, v in enumerate(sc["vars"]):
         L += colvar_block(i, v)
     for j in subset:
@@ -106,7 +110,7 @@ def scenario_lines(sc, subset, tag):
     if sc["it0"]:
         L.append("setstep %d" % sc["it0"])
     scripted = bool(sc.get("script_runs")) and tag.split(":")[-1] in sc["script_runs"]
-    L += ["forcecmd clear", "config EOF"] + config_text(sc, subset, scripted) + ["EOF"]
+    L += ["forcecmd clear", "config EOF"] + config_text(sc, subset, scripted, reverse=(tag.split(":")[-1] == "P")) + ["EOF"]
     L.append("show cv 1 bias 0 tf 1 af 0" if sc.get("showtf") else "show cv 0 bias 0 tf 0 af 0")
     for ev in sc["events"]:
         if ev[0] in ("S", "R"):
@@ -123,6 +127,8 @@ def scenario_lines(sc, subset, tag):
                     if g is not None:
                         L.append("forcecmd cv colvar v%d addforce %r" % (i, float(g)))
             L += ["step", "mdump"]
+            if sc["family"] != "ext":
+                L.append("script cv getenergy")
         elif ev[0] == "X":
             if ev[1] in subset:
                 L.append("script cv bias b%d set active %s" % (ev[1], "on" if ev[2] else "off"))
@@ -262,6 +268,11 @@ def parse_impl(lines):
             cur["config"] = l
         elif l.startswith("SCRIPT"):
             cur["script"].append(l)
+            if st is not None and "result=" in l and "getE" not in st:
+                try:
+                    st["getE"] = float(l.split("result=", 1)[1].split()[0])
+                except (ValueError, IndexError):
+                    pass
         elif l.startswith("STEP"):
             w = l.split()
             st = {"it": int(w[1]), "errc": w[2].split("=")[1], "E": None, "A": {}, "V": [], "B": [], "TF": {}, "CV": {}}
@@ -378,7 +389,7 @@ def gen_scenario(r, k, family="mix"):
         A = [j for j in range(nb) if m[j]]
         B = [j for j in range(nb) if not m[j]]
     return {"id": k, "family": family, "natoms": natoms, "mass": mass, "vars": vars_, "biases": biases, "it0": it0,
-            "events": events, "A": A, "B": B}
+            "events": events, "A": A, "B": B, "perm_run": family == "mix" and r.random() < 0.4}
 
 
 # ------------------------------------------------------------------ python specification of the property
@@ -702,6 +713,32 @@ def oracle_errors(run, sc, tag, subset, isteps):
             return
 
 
+def oracle_getenergy(run, sc, tag, subset, isteps):
+    """O11: `cv getenergy` (total_bias_energy) after a step = the energy handed to the engine at that step = sum over the
+    biases that count, also at steps where some sleep (no extended variables in these families: no variable energy)"""
+    if sc["family"] == "ext":
+        return
+    for s in range(first_error(isteps)):
+        im = isteps[s]
+        if "getE" in im and im["E"] is not None and not close(im["getE"], im["E"], 2e-5):
+            run.violation("pipeline:getenergy", "scenario %d run %s step %d (it=%d): cv getenergy returns %r, the energy added to the engine was %r"
+                          % (sc["id"], tag, s, im["it"], im["getE"], im["E"]), replay_of(sc, {tag: subset}, {"step_index": s}))
+            return
+
+
+def oracle_order(run, sc, R):
+    """O12: the same biases written in the reverse order (the module keeps configuration order within a bias type): same
+    atom forces and energy at every step (C08_order_independent)"""
+    sAB, sP = R["AB"]["steps"], R["P"]["steps"]
+    for s in range(min(first_error(sAB), first_error(sP))):
+        fa, fp = atomf(sAB[s], sc["natoms"]), atomf(sP[s], sc["natoms"])
+        if any(not close(fa[a][q], fp[a][q]) for a in range(sc["natoms"]) for q in range(3)) or not close(sAB[s]["E"], sP[s]["E"]):
+            AB = sorted(sc["A"] + sc["B"])
+            run.violation("pipeline:order", "scenario %d step %d (it=%d): forces/energy %s / %r with the biases in configuration order, %s / %r in the reverse order"
+                          % (sc["id"], s, sAB[s]["it"], fa, sAB[s]["E"], fp, sP[s]["E"]), replay_of(sc, {"AB": AB, "P": AB}, {"step_index": s}))
+            return
+
+
 def oracle_var_tsf(run, sc, tag, subset, isteps):
     """O4: a variable with factor n is evaluated and biased only at multiples of n"""
     ne = first_error(isteps)
@@ -844,7 +881,8 @@ def scripted_scenario(r, k):
         g = [dy(r, -4, 4, 2) if r.random() < 0.8 else None for _ in range(nv)]
         ev.append(("S", [[0.0, 0.0, dy(r, -3, 3, 2)] for _ in range(2)] + [[0.0, 0.0, 0.0]], None, g))
     return {"id": k, "family": "scripted", "natoms": 3, "mass": [1.0, 1.0, 1.0], "vars": vars_, "biases": biases, "it0": 0,
-            "events": ev, "A": list(range(len(biases))), "B": [], "script_runs": ["AB", "B"], "force_B": True}
+            "events": ev, "A": list(range(len(biases))), "B": [], "script_runs": ["AB", "B"], "force_B": True,
+            "after_biases": r.random() < 0.5}
 
 
 def oracle_scripted(run, sc, R):
@@ -1010,11 +1048,13 @@ def run_batch(unit, model, scs, d):
             subsets["0"] = []
         if sc.get("force_B"):
             subsets = {"AB": AB, "A": sc["A"], "B": []}
+        if sc.get("perm_run") and len(AB) >= 2:
+            subsets["P"] = AB          # the same biases, written in the reverse order in the configuration
         sc["_subsets"] = subsets
         for t, sub in subsets.items():
             tag = "%d:%s" % (sc["id"], t)
             L += scenario_lines(sc, sub, tag)
-            if all(sc["biases"][j]["kind"] not in ("F", "FA") for j in sub) and sc["family"] not in ("ext", "scripted"):
+            if all(sc["biases"][j]["kind"] not in ("F", "FA") for j in sub) and sc["family"] not in ("ext", "scripted") and t != "P":
                 M.append(model_case(sc, sub))
                 keys.append(tag)
     for sc in scs:
@@ -1111,6 +1151,8 @@ def check(run):
             for t, sub in subsets.items():
                 tag = "%d:%s" % (sc["id"], t)
                 isteps = R[t]["steps"]
+                if t == "P":
+                    continue
                 sub = impl_order(sc, sub)
                 if any([b["name"] for b in stp["B"]] != ["b%d" % j for j in sub] for stp in isteps):
                     run.mismatch("pipeline:bias-order", {"scenario": sc["id"], "run": t}, [b["name"] for b in isteps[0]["B"]], sub)
@@ -1126,8 +1168,11 @@ def check(run):
                     nontriv = nontriv or w > 0
                     oracle_var_tsf(run, sc, t, sub, isteps)
                 oracle_errors(run, sc, t, sub, isteps)
+                oracle_getenergy(run, sc, t, sub, isteps)
                 if t in ("AB",) and any(sum(b["act"] for b in stp["B"]) >= 2 for stp in isteps):
                     nontriv = True
+            if "P" in R:
+                oracle_order(run, sc, R)
             if "AB" in R:
                 if sc["family"] == "scripted":
                     oracle_scripted(run, sc, R)
